@@ -327,3 +327,22 @@ func init() {
 		Quick: 2, Thorough: 3, Desc: "one ExclusiveRateLimit option value shared by two calls on key A and one on key B",
 		Opts: vrt.Options{Delay: true}, Run: xRateShared, Check: exclusiveCheck})
 }
+
+// X-misuse: a refused call (nil function: documented panic, recovered) concurrent with a valid call
+// on the same key must not leave anything behind: the valid call and the fresh call are answered.
+func xMisuse() {
+	x := &xEnv{e: new(Exclusive)}
+	x.wg.Add(2)
+	go func() {
+		defer x.wg.Done()
+		recoverLog("nil-value", func() { x.e.Call("k", nil) })
+	}()
+	go x.call(2, "k", "w2", 0)
+	x.finish("k")
+}
+
+func init() {
+	vrt.Register(&vrt.Scenario{Name: "X-misuse", Props: []string{"C09:overlap,key-", "C10", "C11:race", "C12:goroutine-leak"},
+		Quick: 3, Thorough: 4, Desc: "Call(key, nil) (refused by a panic, recovered) concurrent with a valid Call on the same key",
+		Opts: vrt.Options{Delay: true}, Run: xMisuse, Check: exclusiveCheck})
+}
